@@ -36,9 +36,13 @@ def tlruFloat (fw : Option Float) : Tlru Float where
     let af := match cfg.ttl with
       | none => 1.0
       | some t =>
+        -- sync: `entry.inserted_at.elapsed()` is read once PER ENTRY while the queue is scanned, so entries
+        -- scanned later (smaller rank) see a slightly larger elapsed time; the driver mirrors that drift
+        -- (100 ns per position) so that exact score ties break the way they do on the real clock.
+        -- Theorems never depend on it (they quantify over every scorer).
         let el := match cfg.flavour with
           | .async => (elapsedMs / 1000).toFloat
-          | _ => elapsedMs.toFloat / 1000.0
+          | _ => elapsedMs.toFloat / 1000.0 + 1e-7 * (64 - min rank 64).toFloat
         max (1.0 - min (el / t.toFloat) 1.0) 0.0
     let fc := match fw with
       | none => f
